@@ -111,7 +111,6 @@ Definition desc_ok (nenv : nat) (md : mdesc) : bool :=
   incrb ids && forallb (fun id => (0 <? id) && (id <? 536870912)) ids &&
   forallb (field_ok (md_n_oneofs md)) (md_fields md) &&
   forallb (fun f => match f_type f with TMessage => Nat.ltb (f_sub f) nenv | _ => true end) (md_fields md) &&
-  forallb (fun f => match f_quant f, f_default f with QCase _, Some _ => false | _, _ => true end) (md_fields md) &&
   (Z.of_nat (length ids) <? 2147483648) &&
   (* ranges as emitted by the generator *)
   match mk_ranges ids with
